@@ -66,8 +66,14 @@ Record imol := mkimol {
   i_multi : bool;          (* MaterialIndexer (2-d) or ChemicalIndexer (1-d) *)
   i_data : nat;            (* ref: row (1-d) or SparseArray (2-d) *)
   i_ph : nat;              (* ref to the Phase object (1-d only) *)
-  i_phases : list phase    (* _phases (2-d only) *)
+  i_phases : list phase;   (* _phases (2-d only) *)
+  i_dc : nat               (* ref to the _data_cache dict (cached volumetric views) *)
 }.
+(* an entry of _data_cache: the (Chemical)VolumetricFlowIndexer built by by_volume(TP).  It is keyed by the
+   ThermalCondition OBJECT and holds the molar data it was built on (row dict, or the rows of the SparseArray;
+   the modelled operations never mutate a SparseArray's row list, so the array reference stands for its rows),
+   the phase container (1-d) or the phase tuple (2-d), and the same ThermalCondition object *)
+Record dcent := mkde { d_tc : nat; d_data : nat; d_phases : list phase; d_ph : option nat }.
 Record sobj := mkobj {
   o_imol : nat;            (* ref to the indexer object *)
   o_tc : nat;              (* ref to the ThermalCondition *)
@@ -80,17 +86,18 @@ Record state := mkst {
   phs : list pcell;        (* Phase / LockedPhase objects; refs 0,1,2 are the LockedPhase singletons *)
   tcs : list (Q * Q);      (* ThermalCondition objects *)
   imols : list imol;
-  objs : list sobj
+  objs : list sobj;
+  dcs : list (list dcent)  (* _data_cache dicts *)
 }.
 Record cobj := mkc { c_k : nat; c_m : nat; c_pkg : nat }.
 Record cstate := mkcs { cobjs : list cobj; keys : list key; memos : list memo }.
 Record world := mkw { w_st : state; w_cs : cstate }.
 
-Definition st0 : state := mkst [] [] [mkp 0%nat true; mkp 1%nat true; mkp 2%nat true] [] [] [].
+Definition st0 : state := mkst [] [] [mkp 0%nat true; mkp 1%nat true; mkp 2%nat true] [] [] [] [].
 Definition cs0 : cstate := mkcs [] [] [].
 Definition w0 : world := mkw st0 cs0.
 
-Definition d_imol := mkimol false O O [].
+Definition d_imol := mkimol false O O [] O.
 Definition d_obj := mkobj O O [] false.
 Definition d_cobj := mkc O O O.
 Definition d_p := mkp O false.
@@ -105,16 +112,19 @@ Definition cobj_of (c : cstate) (i : nat) : cobj := nth i (cobjs c) d_cobj.
 Definition key_of (c : cstate) (r : nat) : key := nth r (keys c) None.
 Definition memo_of (c : cstate) (r : nat) : memo := nth r (memos c) [].
 
-Definition set_rows (s : state) x := mkst x (arrs s) (phs s) (tcs s) (imols s) (objs s).
-Definition set_arrs (s : state) x := mkst (rows s) x (phs s) (tcs s) (imols s) (objs s).
-Definition set_phs (s : state) x := mkst (rows s) (arrs s) x (tcs s) (imols s) (objs s).
-Definition set_tcs (s : state) x := mkst (rows s) (arrs s) (phs s) x (imols s) (objs s).
-Definition set_imols (s : state) x := mkst (rows s) (arrs s) (phs s) (tcs s) x (objs s).
-Definition set_objs (s : state) x := mkst (rows s) (arrs s) (phs s) (tcs s) (imols s) x.
+Definition set_rows (s : state) x := mkst x (arrs s) (phs s) (tcs s) (imols s) (objs s) (dcs s).
+Definition set_arrs (s : state) x := mkst (rows s) x (phs s) (tcs s) (imols s) (objs s) (dcs s).
+Definition set_phs (s : state) x := mkst (rows s) (arrs s) x (tcs s) (imols s) (objs s) (dcs s).
+Definition set_tcs (s : state) x := mkst (rows s) (arrs s) (phs s) x (imols s) (objs s) (dcs s).
+Definition set_imols (s : state) x := mkst (rows s) (arrs s) (phs s) (tcs s) x (objs s) (dcs s).
+Definition set_objs (s : state) x := mkst (rows s) (arrs s) (phs s) (tcs s) (imols s) x (dcs s).
 
 Definition wr_row (s : state) (r : nat) (v : vec) := set_rows s (upd (rows s) r v).
 Definition wr_tc (s : state) (r : nat) (v : Q * Q) := set_tcs s (upd (tcs s) r v).
 Definition wr_p (s : state) (r : nat) (v : pcell) := set_phs s (upd (phs s) r v).
+Definition set_dcs (s : state) x := mkst (rows s) (arrs s) (phs s) (tcs s) (imols s) (objs s) x.
+Definition dc_of (s : state) (r : nat) : list dcent := nth r (dcs s) [].
+Definition new_dc (s : state) : state * nat := (set_dcs s (dcs s ++ [[]]), length (dcs s)).
 Definition wr_imol (s : state) (r : nat) (v : imol) := set_imols s (upd (imols s) r v).
 Definition wr_obj (s : state) (r : nat) (v : sobj) := set_objs s (upd (objs s) r v).
 
@@ -122,7 +132,9 @@ Definition new_row (s : state) (v : vec) : state * nat := (set_rows s (rows s ++
 Definition new_arr (s : state) (v : list nat) : state * nat := (set_arrs s (arrs s ++ [v]), length (arrs s)).
 Definition new_p (s : state) (v : pcell) : state * nat := (set_phs s (phs s ++ [v]), length (phs s)).
 Definition new_tc (s : state) (v : Q * Q) : state * nat := (set_tcs s (tcs s ++ [v]), length (tcs s)).
-Definition new_imol (s : state) (v : imol) : state * nat := (set_imols s (imols s ++ [v]), length (imols s)).
+(* every new indexer object comes with its own empty _data_cache *)
+Definition new_imol (s : state) (v : nat -> imol) : state * nat :=
+  (set_imols (set_dcs s (dcs s ++ [[]])) (imols s ++ [v (length (dcs s))]), length (imols s)).
 Definition new_obj (s : state) (v : sobj) : state * nat := (set_objs s (objs s ++ [v]), length (objs s)).
 
 (* allocate several rows with the given contents *)
@@ -165,6 +177,8 @@ Section Model.
 Variable calc1 : nat -> nat -> option phase -> vec -> Q -> Q -> Q.
 Variable calcx : nat -> nat -> list (phase * vec) -> Q -> Q -> Q.
 Variable shared_key : bool.
+(* Chemical.V of chemical j: molar volume (phase, T, P) *)
+Variable cvol : nat -> phase -> Q -> Q -> Q.
 
 (* the value the mixture computes for a given literal and composition *)
 Definition value_at (pkg name : nat) (lit : literal) (ck : compkey) : Q :=
@@ -326,9 +340,11 @@ Definition link_with (s : state) (i j : nat) (fl ph tp : bool) : state * option 
   if negb (Bool.eqb (i_multi im) (i_multi im2)) then fail s ERuntime
   else
     let s1 := if tp then wr_obj s i (mkobj (o_imol o) (o_tc o2) (o_views o) (o_hasv o)) else s in
-    let im1 := if fl then mkimol (i_multi im) (i_data im2) (i_ph im) (i_phases im) else im in
-    let im1 := if ph && negb (i_multi im) then mkimol (i_multi im1) (i_data im1) (i_ph im2) (i_phases im1) else im1 in
-    ok (wr_imol s1 (o_imol o) im1).
+    (* _data_cache: shared when T/P, flows and (1-d) the phase are all linked, otherwise a new empty dict *)
+    let (s2, dc) := if tp && fl && (ph || i_multi im) then (s1, i_dc im2) else new_dc s1 in
+    let dat := if fl then i_data im2 else i_data im in
+    let phr := if ph && negb (i_multi im) then i_ph im2 else i_ph im in
+    ok (wr_imol s2 (o_imol o) (mkimol (i_multi im) dat phr (i_phases im) dc)).
 
 (* MultiStream.reset_cache, state part: `self._streams = {}` when the attribute is missing *)
 Definition ensure_views (s : state) (i : nat) : state :=
@@ -343,7 +359,8 @@ Definition unlink (s : state) (i : nat) : state * option err :=
   else
     let (s1, pr) := if i_multi im then (s, i_ph im) else new_p s (mkp (phase_of s im) false) in
     let (s2, d) := copy_data s1 im in
-    let s3 := wr_imol s2 (o_imol o) (mkimol (i_multi im) d pr (i_phases im)) in
+    let (s2, dc) := new_dc s2 in                                  (* imol._data_cache = {} *)
+    let s3 := wr_imol s2 (o_imol o) (mkimol (i_multi im) d pr (i_phases im) dc) in
     let (s4, tr) := new_tc s3 (tc_of s (o_tc o)) in
     (* MultiStream.reset_cache creates _streams when the object has none *)
     ok (wr_obj s4 i (mkobj (o_imol o) tr (o_views o) (o_hasv o || i_multi im))).
@@ -402,7 +419,8 @@ Definition reset_chem (s : state) (i : nat) : state :=
   let (s1, d) := if i_multi im
                  then let (sa, rs) := new_rows s (firstn (length (i_phases im)) (map (row s) (arr s (i_data im)))) in new_arr sa rs
                  else copy_data s im in
-  let s2 := wr_imol s1 (o_imol o) (mkimol (i_multi im) d (i_ph im) (i_phases im)) in
+  let (s1, dc) := new_dc s1 in                                    (* self._data_cache = {} *)
+  let s2 := wr_imol s1 (o_imol o) (mkimol (i_multi im) d (i_ph im) (i_phases im) dc) in
   if i_multi im then
     fold_left (fun st pn =>
                  match index_of (fst pn) (i_phases im) with
@@ -445,10 +463,49 @@ Definition mix_flows (s : state) (i : nat) (srcs : list nat) : state :=
   let total := fold_right vadd (vzero nchem) (map (fun x => row s (i_data x)) sims) in
   wr_row s1 (i_data im) total.
 
+(* ---------- volumetric flows: Stream.vol / MultiStream.vol through indexer.by_volume and _data_cache ---------- *)
+Fixpoint find_dc (t : nat) (l : list dcent) : option dcent :=
+  match l with
+  | [] => None
+  | e :: r => if Nat.eqb (d_tc e) t then Some e else find_dc t r
+  end.
+
+(* what a newly built volumetric view of indexer [im] holds *)
+Definition capture (tc : nat) (im : imol) : dcent :=
+  mkde tc (i_data im) (i_phases im) (if i_multi im then None else Some (i_ph im)).
+
+(* self._imol.by_volume(self._thermal_condition): the cached view for this ThermalCondition object, or a new one *)
+Definition by_volume (s : state) (i : nat) : state * dcent :=
+  let o := obj_of s i in
+  let im := imol_of s (o_imol o) in
+  match find_dc (o_tc o) (dc_of s (i_dc im)) with
+  | Some e => (s, e)
+  | None => let e := capture (o_tc o) im in
+            (set_dcs s (upd (dcs s) (i_dc im) (dc_of s (i_dc im) ++ [e])), e)
+  end.
+
+(* VolumetricFlowDict.output over the stored entries: mol * 1000 * V_j(phase, T, P) with the view's own phase
+   container / phase and ThermalCondition.  (The per-chemical (T, P, phase)-keyed molar-volume memo inside
+   VolumetricFlowDict belongs to C11's model; its result is taken as V_j at its key.) *)
+Definition view_rows (s : state) (e : dcent) : list vec :=
+  let tp := tc_of s (d_tc e) in
+  let conv (p : phase) (r : vec) := map2 (fun j x => x * (1000 * cvol j p (fst tp) (snd tp))) (seq O nchem) r in
+  match d_ph e with
+  | Some pr => [conv (p_val (pcell_of s pr)) (row s (d_data e))]
+  | None => map (fun rp => conv (snd rp) (row s (fst rp))) (combine (arr s (d_data e)) (d_phases e))
+  end.
+(* Stream.vol = ivol.data ; MultiStream.vol = ivol.data.sum(0) *)
+Definition read_vol (s : state) (i : nat) : state * vec :=
+  let (s1, e) := by_volume s i in (s1, vsum_rows (view_rows s1 e)).
+(* what a stream with an empty _data_cache returns in the same state *)
+Definition spec_vol (s : state) (i : nat) : vec :=
+  let o := obj_of s i in vsum_rows (view_rows s (capture (o_tc o) (imol_of s (o_imol o)))).
+
 (* ---------- operations ---------- *)
 Inductive op :=
 | ONew (flows : list vec) (ps : list phase) (T P : Q) (pkg : nat)   (* one row: Stream(phase = hd ps); else MultiStream *)
 | ORead (i name : nat) (flow nophase : bool)
+| ORVol (i : nat)                               (* read s.vol *)
 | OSetT (i : nat) (T : Q) | OSetP (i : nat) (P : Q) | OSetPhase (i : nat) (p : phase)
 | OSetFlow (i : nat) (p : phase) (j : nat) (v : Q)
 | OScale (i : nat) (k : Q) | OFmol (i : nat) (k : Q) | OEmpty (i : nat)
@@ -463,7 +520,7 @@ Inductive op :=
 | OSetPkg (i : nat) (pkg : nat)
 | ONop.
 
-Inductive obs := BOk | BErr (e : err) | BVal (r : rd) | BIdx (n : nat).
+Inductive obs := BOk | BErr (e : err) | BVal (r : rd) | BIdx (n : nat) | BVec (v : vec).
 
 Definition lift (w : world) (r : state * option err) : world * obs :=
   (mkw (fst r) (w_cs w), match snd r with None => BOk | Some e => BErr e end).
@@ -482,7 +539,7 @@ Fixpoint read_all (w : world) (l : list nat) : world :=
 Definition op_objs (o : op) : list nat :=
   match o with
   | ONew _ _ _ _ _ | ONop => []
-  | ORead i _ _ _ | OSetT i _ | OSetP i _ | OSetPhase i _ | OSetFlow i _ _ _ | OScale i _ | OFmol i _ | OEmpty i
+  | ORead i _ _ _ | ORVol i | OSetT i _ | OSetP i _ | OSetPhase i _ | OSetFlow i _ _ _ | OScale i _ | OFmol i _ | OEmpty i
   | OProxy i | OFlowProxy i | OCopy i | OUnlink i | OView i _ | OSetPhases i _ | OResetCache i | OSetPkg i _ => [i]
   | OLink i j _ _ _ | OCopyLike i j | OCopyFlow i j | OCopyTC i j | OCopyPhase i j | OMix1 i j => [i; j]
   | OMix i srcs _ _ => i :: srcs
@@ -505,6 +562,7 @@ Definition step_valid (w : world) (o : op) : world * obs :=
       let (s3, n) := new_obj s2 (mkobj ir tr [] (match flows with [_] => false | _ => true end)) in
       (mkw s3 (new_cobj_fresh c pkg), BIdx n)
   | ORead i name flow nophase => let (w1, r) := get_property w i name flow nophase in (w1, BVal r)
+  | ORVol i => let (s1, v) := read_vol s i in (mkw s1 c, BVec v)
   | OSetT i T => lift w (set_T s i T)
   | OSetP i P => lift w (set_P s i P)
   | OSetPhase i p => lift w (set_phase s i p)
@@ -589,6 +647,21 @@ Definition step_valid (w : world) (o : op) : world * obs :=
 Definition step (w : world) (o : op) : world * obs :=
   if forallb (fun i => Nat.ltb i (length (cobjs (w_cs w)))) (op_objs o) then step_valid w o else (w, BErr EIndex).
 
+(* domain of the volumetric-flow theorem: MultiStreams that link flows and T/P have the same phase tuple
+   (link_with does not check this; otherwise _phases and data.rows of the receiver disagree from then on) *)
+Definition adm (s : state) (o : op) : bool :=
+  match o with
+  | OLink i j fl ph tp =>
+      let im := imol_of s (o_imol (obj_of s i)) in let im2 := imol_of s (o_imol (obj_of s j)) in
+      if i_multi im && i_multi im2 && fl && tp then list_eqb Nat.eqb (i_phases im) (i_phases im2) else true
+  | _ => true
+  end.
+Fixpoint run_adm (w : world) (ops : list op) : bool :=
+  match ops with
+  | [] => true
+  | o :: t => adm (w_st w) o && run_adm (fst (step w o)) t
+  end.
+
 Fixpoint run (w : world) (ops : list op) : world * list obs :=
   match ops with
   | [] => (w, [])
@@ -607,6 +680,7 @@ Definition obs_eqb (a b : obs) : bool :=
   | BErr e, BErr f => err_eqb e f
   | BVal x, BVal y => rd_eqb x y
   | BIdx n, BIdx m => Nat.eqb n m
+  | BVec x, BVec y => vapproxb x y
   | _, _ => false
   end.
 
@@ -658,11 +732,13 @@ Definition stub_calc1 (pkg name : nat) (p : option phase) (z : vec) (T P : Q) : 
                     material is distributed over the phases and not only to the overall composition *)
                  + match p with None => 1 | Some q => 1 + inject_Z (Z.of_nat (q + 1)%nat) / 2 end * vdot (stub_a pkg) z
                  + T / 64 + P / 16384).
+Definition stub_cvol (j : nat) (p : phase) (T P : Q) : Q :=
+  inject_Z (Z.of_nat (j + 1 + 4 * (p + 1))%nat) / 1024 + T / 4194304.
 Definition stub_calcx (pkg name : nat) (l : list (phase * vec)) (T P : Q) : Q :=
   fold_right Qplus 0 (map (fun pz => stub_calc1 pkg name (Some (fst pz)) (snd pz) T P) l).
 
 Definition run_eqb (shared : bool) (ops : list op) (expect : list obs) (final : list snap) : bool :=
-  let (w, bs) := run stub_calc1 stub_calcx shared w0 ops in
+  let (w, bs) := run stub_calc1 stub_calcx shared stub_cvol w0 ops in
   list_eqb obs_eqb bs expect
   && Nat.eqb (length (objs (w_st w))) (length final)
   && list_eqb snap_eqb (map (snap_of w) (seq O (length final))) final.
